@@ -4,7 +4,7 @@
    exactly the encoded field values. *)
 From Model Require Import Bytes Prim Tables Cert KAC Mapping Sig LS RI.
 From Spec Require Import Wire SpecTables.
-From Proofs Require Import SpecProofs KacProofs MapRT SpecRA.
+From Proofs Require Import SpecProofs KacProofs MapRT SpecRA SpecRI.
 Open Scope Z_scope.
 
 Theorem C02_certificate : forall t payload r, (t < 256)%N -> (nlen payload < 65536)%N ->
@@ -62,6 +62,39 @@ Theorem C02_router_address : forall cost date style opts r,
     Ok (mkRA [cost] (be_encode 8 date) (istr style) (mkMap (Some sz) (Some (map wire_pair opts))), r).
 Proof. exact spec_router_address_accepted. Qed.
 Print Assumptions C02_router_address.
+(* RouterInfo as a whole: identity block with a key certificate of any supported type pair the
+   router identity admits || published || address count || addresses || peer_size 0 || options ||
+   signature of the identity's type: accepted followed by anything, exactly consumed, every field
+   returned as encoded, and the value serialises back to the encoding *)
+Theorem C02_router_info : forall (s c : N) (cl sl : nat) pub pad spk extra published addrs opts n sg r,
+  In s [0; 1; 2; 7; 8; 11]%N -> In c [0; 4; 5; 6; 7]%N ->
+  spec_crypto_len (Z.of_N c) = Some (Z.of_nat cl) -> spec_spk_len (Z.of_N s) = Some (Z.of_nat sl) ->
+  length pub = cl -> length spk = sl -> length pad = (384 - cl - sl)%nat ->
+  (N.of_nat (length extra) < 65532)%N ->
+  ri_signing_denied (Z.of_N s) = false -> ri_crypto_denied (Z.of_N c) = false ->
+  sig_length (Z.of_N s) = Some n -> Z.of_nat (length sg) = n ->
+  (published < 2 ^ 64)%N -> (length addrs <= 255)%nat -> Forall ra_tuple_ok addrs -> opts_ok opts ->
+  let ident := spec_identity pub pad spk (spec_keycert s c extra) in
+  wf (spec_router_info ident published addrs opts sg ++ r) ->
+  exists i, read_router_info (spec_router_info ident published addrs opts sg ++ r) = Ok (i, r) /\
+    k_pub (ri_ident i) = Some pub /\ k_pad (ri_ident i) = pad /\ k_spk (ri_ident i) = Some spk /\
+    kc_signing_type (k_kc (ri_ident i)) = Z.of_N s /\ kc_crypto_type (k_kc (ri_ident i)) = Z.of_N c /\
+    ri_published i = be_encode 8 published /\ Forall2 ra_of_tuple addrs (ri_addrs i) /\
+    m_vals (ri_options i) = Some (map wire_pair opts) /\ ri_sig i = mkSig (Z.of_N s) sg /\
+    router_info_bytes i = Ok (spec_router_info ident published addrs opts sg).
+Proof. exact spec_router_info_keycert_accepted. Qed.
+Print Assumptions C02_router_info.
+Example C02_router_info_nonvacuous :
+  let b := spec_router_info (spec_identity (repeatN 1 32) (repeatN 2 320) (repeatN 3 32) (spec_keycert 7 4 []))
+             1700000000000 [(10%N, 0%N, [83; 83; 85]%N, [([104; 111; 115; 116]%N, [49; 46; 50]%N)])] [([97]%N, [])] (repeatN 5 64) in
+  match read_router_info (b ++ [8%N]) with
+  | Ok (i, [r]) => match router_info_bytes i with
+                   | Ok b' => bytes_eqb b' b && (r =? 8)%N && (length (ri_addrs i) =? 1)%nat
+                   | _ => false
+                   end
+  | _ => false
+  end = true.
+Proof. vm_compute. reflexivity. Qed.
 Example C02_nonvacuous : exists k,
   read_keys_and_cert (spec_identity (repeatN 1 32) (repeatN 2 320) (repeatN 3 32) (spec_keycert 7 4 [9%N]) ++ [8%N]) = Ok (k, [8%N])
   /\ k_pad k = repeatN 2 320.
